@@ -206,8 +206,16 @@ def _run_unary_sync(
                         _write_error_batch(writer, schema, overshoot, server_id=server_id)
                         http_status = HTTPStatus.INTERNAL_SERVER_ERROR
                     else:
+                        # The pre-flight above only sees the buffer size; the
+                        # serialized payload is larger.  Hand the cap down so an
+                        # upload that does not fit is refused before it is made.
                         external_bytes_written = _write_result_batch(
-                            writer, schema, result, app._server.external_config, prebuilt=result_batch
+                            writer,
+                            schema,
+                            result,
+                            app._server.external_config,
+                            prebuilt=result_batch,
+                            max_external_bytes=app._max_externalized_response_bytes,
                         )
                 # No narrow (TypeError, pa.ArrowInvalid) -> 400 branch here.
                 # Every *request* error is already caught above, before the
